@@ -383,7 +383,7 @@ func runC01(c *Ctx) {
 	r := c.Res
 	r.Rule = "program with >=1 map call or disabled binding, >=2 jobs, run to completion; distinct by (program, order in which jobs finished)"
 	start := time.Now()
-	nGen, nSched := 300, 2
+	nGen, nSched := 240, 2
 	if c.Thorough {
 		nGen, nSched = 3000, 3
 	}
@@ -396,7 +396,7 @@ func runC01(c *Ctx) {
 	cases := c01ReadCorpus(c.Corpus)
 	cases = append(cases, c01ReadCorpus(filepath.Join(filepath.Dir(c.Corpus), "tiera"))...)
 	nCorpus := len(cases)
-	cases = append(cases, c01DisableFamily(c.Rng, c.Thorough)...)
+	cases = append(cases, c01Families(c.Rng, c.Thorough)...)
 	optsList := []GenOpts{
 		{},
 		{MaxDepth: 3, MaxCalls: 3},
